@@ -364,6 +364,22 @@ theorem listener_admitted (s : Net) (M : List Nat) (h a H : Nat) (g : Option Nat
     exact listener_admitted_sweep s M h a H pre post g H hH hh inv (by omega) hsw'
 
 
+/-- **`admitted_agreement`** ("… and known to everybody one pass later"): in the situation of
+`listener_admitted_sweep`, once `a` has the token, its own pass to its NS — repeated once, because
+that NS does not yet know `a` as its PS, unless the NS is `h` itself (two-station ring), which adopted
+`a` already — leaves the enlarged ring `M' = M ∪ {a}` in full agreement: every member, the old ones
+and `a`, has a valid LAS equal to `M'` with NS/PS derived from it, and the NS of `a` holds the token.
+So `agreement_invariant` / `ascending_rotation` apply again with `M'`. -/
+theorem admitted_agreement (s : Net) (M M' : List Nat) (h a H : Nat) (pre post : List Nat) (g : Option Nat)
+    (fuel : Nat) (hH : H ≤ 126) (hh : h < H) (inv : SweepInv s M h h a pre g H) (hcur : g.getD h < H)
+    (hsw : sweepFrom h (cycSucc h M) H fuel (g.getD h) = pre ++ a :: post)
+    (hM' : Ring M') (hmem' : ∀ x, x ∈ M' ↔ x = a ∨ x ∈ M) :
+    let s2 := pass (gapPoll (visits s h M.length pre.length) h) h
+    (cycSucc h M = h → Agreed (pass s2 a) M' h) ∧
+    (cycSucc h M ≠ h → Agreed (pass (pass s2 a) a) M' (cycSucc h M)) := by
+  obtain ⟨g', inv', hp, hbt, _⟩ := sweep_reaches M h a H hH hh post pre fuel s g inv hcur hsw
+  exact admitted_agrees _ M M' h a (admitted_state _ M M' h a [] g' H inv' hbt hp hM'.isRing hmem')
+
 /-- **`listener_ready`** (link from the LAS theorems to the abstract ring): a fresh listener of any
 address that witnesses a wrap-around pass and then two full rotations of `M` — which is what an
 agreeing ring puts on the bus (`ascending_rotation_full`) — has exactly the knowledge
@@ -466,6 +482,9 @@ example : SweepInv exNet [3, 9] 3 3 5 [4] none 126 :=
   ⟨exNet_agreed, exNet_listener,
    fun b hb => by simp at hb; subst hb; simp [exNet],
    fun nh e => by simp only [exNet, if_true, Option.some.injEq] at e; subst e; rfl, rfl⟩
+
+example : Ring [3, 5, 9] ∧ ∀ x, x ∈ [3, 5, 9] ↔ x = 5 ∨ x ∈ [3, 9] :=
+  ⟨⟨by simp, by simp [Asc], by simp⟩, fun x => by simp; omega⟩
 
 end AbstractExample
 
